@@ -1281,10 +1281,58 @@ def r7_every_force_counts(ctx):
 
 
 # ------------------------------------------------------------------------------------------------ R8
+def _state_closure(mods, start):
+    """the `self.<attr>` names the given solver-state attributes are computed from: their assignments in the class and its base are followed
+    through attributes and methods (state is set up in __init__, which the evaluated entry point does not run)"""
+    seen, names = set(), set(start)
+    work = []
+
+    def assigned(d):
+        for mod in mods:
+            for q, f in mod.funcs.items():
+                for st in ast.walk(f):
+                    if isinstance(st, ast.Assign) and any(dotted(t) == d for t in st.targets) and id(st) not in seen:
+                        seen.add(id(st))
+                        work.append(st.value)
+    for d in start:
+        assigned(d)
+    for _ in range(6):
+        cur, work[:] = list(work), []
+        for e in cur:
+            for x in ast.walk(e):
+                d = dotted(x) if isinstance(x, ast.Attribute) else None
+                if d and d.startswith("self."):
+                    names.add(d)
+                    assigned(d)
+                if isinstance(x, ast.Call) and (dotted(x.func) or "").startswith("self."):
+                    for mod in mods:
+                        for cls in ("FreqDirect", "_BaseODE"):
+                            f = mod.funcs.get(f"{cls}.{dotted(x.func)[5:]}")
+                            if f is not None and id(f) not in seen:
+                                seen.add(id(f))
+                                work.append(f)
+        if not work:
+            break
+    return names
+
+
+def _general_hint(hv):
+    """the value of assume_a / sym_pos that asks for the general driver"""
+    if hv is None:
+        return True
+    if is_unknown(hv) or isinstance(hv, tuple):
+        return False
+    if hv.is_const():
+        return hv.const_value() == 0
+    return S.sym_name(hv) in ("'gen'", "'general'", '"gen"', '"general"', "False", "None")
+
+
 def r8_structure_assumption(ctx):
     """A structure hint given to the linear solver for the dynamic stiffness H = i W b + k - W^2 m (scipy's assume_a / sym_pos) must be
-    justified by ALL matrices H is made of: it is read from the code that computes the hint (followed through attributes and methods of the
-    class).  No hint (the general driver) is always right."""
+    justified by ALL matrices H is made of.  The hint is read as a *value* on every evaluated combination of the tests the coupled arm makes:
+    where it is not the general driver, what it depends on are the quantities tested on the way to it (a local flag computed from
+    `mattype(m) and mattype(k)` is those two tests) and the solver state it is read from (followed through the class to the code that computes
+    it).  No hint (the general driver) is always right."""
     mods = [ctx.src.mod(O.FD), ctx.src.mod(O.BASE)]
     n = 0
     usable = 0
@@ -1295,54 +1343,45 @@ def r8_structure_assumption(ctx):
             continue
         usable += 1
         # (every combination of the tests the configuration leaves open: a hint may be passed on one of them only)
-        calls = [c for _, tr in run.paths for c in tr.calls if c[0] in S._SOLVES and S._SOLVES[c[0]] == "solve"]
-        if not calls:
+        per_node = {}
+        for dec, tr in run.paths:
+            for c in tr.calls:
+                if c[0] in S._SOLVES and S._SOLVES[c[0]] == "solve":
+                    per_node.setdefault(id(c[3]), (c[3], []))[1].append((c[2], dec))
+        if not per_node:
             ctx.error(f"{run.label}: the coupled arm solves H d = F once per frequency", run.fn)
             continue
-        for c in calls:
-            node = c[3]
+        for node, seen_calls in per_node.values():
             if id(node) in seen_nodes:
                 continue
             seen_nodes.add(id(node))
             n += 1
-            hints = [k for k in node.keywords if k.arg in ("assume_a", "sym_pos")]
+            hints = [k.arg for k in node.keywords if k.arg in ("assume_a", "sym_pos")]
             if not hints:
                 ctx.ok(f"FreqDirect.fsolve: `{ast.unparse(node.func)}` is called without a structure assumption (general driver)", node)
                 continue
-            for k in hints:
-                v = k.value
-                if isinstance(v, ast.Constant) and v.value in ("gen", "general", False, None):
+            for hk in hints:
+                vals = [(kws.get(hk), dec) for kws, dec in seen_calls]
+                if any(hv is None or is_unknown(hv) or isinstance(hv, tuple) for hv, _ in vals):
+                    ctx.error(f"{run.label}: the value of `{hk}` handed to the solver cannot be evaluated", node, [repr(hv) for hv, _ in vals])
+                    continue
+                special = [(hv, dec) for hv, dec in vals if not _general_hint(hv)]
+                if not special:
                     ctx.ok("FreqDirect.fsolve: explicit general driver", node)
                     continue
-                # follow self.<attr> to its assignments in the class (and its base) and the methods they call
-                seen, names = set(), set()
-                work = [v]
-                for _ in range(6):
-                    nxt = []
-                    for e in work:
-                        for x in ast.walk(e):
-                            d = dotted(x) if isinstance(x, ast.Attribute) else None
-                            if d and d.startswith("self."):
-                                names.add(d)
-                                for mod in mods:
-                                    for q, f in mod.funcs.items():
-                                        for st in ast.walk(f):
-                                            if isinstance(st, ast.Assign) and any(dotted(t) == d for t in st.targets) and id(st) not in seen:
-                                                seen.add(id(st))
-                                                nxt.append(st.value)
-                            if isinstance(x, ast.Call) and (dotted(x.func) or "").startswith("self."):
-                                for mod in mods:
-                                    for cls in ("FreqDirect", "_BaseODE"):
-                                        f = mod.funcs.get(f"{cls}.{dotted(x.func)[5:]}")
-                                        if f is not None and id(f) not in seen:
-                                            seen.add(id(f))
-                                            nxt.append(f)
-                    work = nxt
-                    if not work:
-                        break
+                names = set()
+                for hv, dec in special:
+                    names |= _symbols(hv)
+                    for tv, _ in dec:
+                        try:
+                            names |= _symbols(tv)
+                        except Unsupported:
+                            pass
+                names = {x for x in names if x.startswith("self.")}
+                names = _state_closure(mods, names)
                 ok = {"self.b", "self.k"} <= names
                 ctx.check(ok, "FreqDirect.fsolve: the structure assumption passed to the solver is derived from every matrix of the dynamic stiffness "
-                              "(m, b and k)", node, None if ok else {"hint": ast.unparse(v), "depends on": sorted(names),
+                              "(m, b and k)", node, None if ok else {"hint": sorted({repr(hv) for hv, _ in special}), "depends on": sorted(names),
                                                                       "consequence": "an unsymmetric damping matrix makes H unsymmetric whatever m and k are"},
                           key="C02-R8|FreqDirect.fsolve|structure assumption ignores a matrix of H")
     if usable:
